@@ -114,6 +114,16 @@ def handle (op : String) (args : List String) : Option Ans :=
         match hexArgs rest with
         | some [pk, sk, n, m] => some (objEnc (objBoxEncrypt P m n pk sk), okHex (Spec.NaCl.box pk sk n m))
         | _ => none
+    | "boxobj_vecforms", _ :: rest =>
+        match hexArgs rest with
+        | some [pk, sk, n, m] => some (objEnc (objBoxEncrypt P m n pk sk), okHex (Spec.NaCl.box pk sk n m))
+        | _ => none
+    | "sbobj_vecforms", _ :: rest =>
+        match hexArgs rest with
+        | some [k, n, m] =>
+            some ((match objEncrypt P m n k with | .ok b => okHex (intoVec b) | .err => "err" | .panic => "panic"),
+                  okHex (Spec.NaCl.secretbox k n m))
+        | _ => none
     | "boxobj_precalc_encrypt", _ :: rest =>
         match hexArgs rest with
         | some [pk, sk, n, m] => some (objEnc (objEncrypt P m n (beforenm P pk sk)), okHex (Spec.NaCl.box pk sk n m))
